@@ -239,6 +239,41 @@ def _val(op: dict) -> Any:
 
 
 SIBLING_EDITS = [0]
+CONTAINERS: dict[str, int] = {}
+
+
+def _names_as(op: dict):  # noqa: ANN202
+    """The names of a plural removal in the form the caller happens to have them: any iterable of names is legal."""
+    names = [it["name"] for it in op["items"]]
+    form = op.get("container", "list")
+    CONTAINERS[form] = CONTAINERS.get(form, 0) + 1
+    if form == "tuple":
+        return tuple(names)
+    if form == "generator":
+        return (n for n in names)
+    if form == "iterator":
+        return iter(names)
+    if form == "dict_keys":
+        return dict.fromkeys(names).keys()
+    if form == "filter":
+        return filter(None, names)
+    return names
+
+
+def _mapping_as(table: dict, op: dict):  # noqa: ANN202
+    """The table of a plural add / update / scale as another Mapping than a dict."""
+    import collections
+    import types
+
+    form = op.get("container", "dict")
+    CONTAINERS[form] = CONTAINERS.get(form, 0) + 1
+    if form == "mappingproxy":
+        return types.MappingProxyType(table)
+    if form == "ordered":
+        return collections.OrderedDict(table)
+    if form == "chainmap":
+        return collections.ChainMap(table)
+    return table
 
 
 def _table(op: dict, kind: str) -> dict:
@@ -318,37 +353,37 @@ def apply_real(model, op: dict) -> None:  # noqa: ANN001
     elif o == "add_parameters":
         table = _table(op, "parameter")
         try:
-            model.add_parameters(table)
+            model.add_parameters(_mapping_as(table, op))
         finally:
             if "objects" in op:
                 _use_table_elsewhere(table, "parameter")
     elif o == "add_variables":
         table = _table(op, "variable")
         try:
-            model.add_variables(table)
+            model.add_variables(_mapping_as(table, op))
         finally:
             if "objects" in op:
                 _use_table_elsewhere(table, "variable")
     elif o == "update_parameters":
         table = _table(op, "parameter")
         try:
-            model.update_parameters(table)
+            model.update_parameters(_mapping_as(table, op))
         finally:
             if "objects" in op:
                 _use_table_elsewhere(table, "parameter")
     elif o == "update_variables":
         table = _table(op, "variable")
         try:
-            model.update_variables(table)
+            model.update_variables(_mapping_as(table, op))
         finally:
             if "objects" in op:
                 _use_table_elsewhere(table, "variable")
     elif o == "remove_parameters":
-        model.remove_parameters([it["name"] for it in op["items"]])
+        model.remove_parameters(_names_as(op))
     elif o == "remove_variables":
-        model.remove_variables([it["name"] for it in op["items"]])
+        model.remove_variables(_names_as(op))
     elif o == "scale_parameters":
-        model.scale_parameters({it["name"]: it["factor"] for it in op["items"]})
+        model.scale_parameters(_mapping_as({it["name"]: it["factor"] for it in op["items"]}, op))
     else:
         raise ValueError(o)
 
@@ -636,6 +671,9 @@ def gen_op(rng, spec: dict, removed: list[str], counter: list[int]) -> dict:  # 
         if invalid_first:
             nm[0] = "ghost"
         items = [{"name": n, "factor": 2.0} for n in nm]
+    container = {}
+    if rng.random() < 0.6:
+        container = {"container": rng.choice(["tuple", "generator", "iterator", "dict_keys", "filter"] if o.startswith("remove_") else ["mappingproxy", "ordered", "chainmap"])}
     if o.startswith(("add_", "update_")) and rng.random() < 0.5:
         # the documented other input form: Parameter / Variable objects; "shared" = one object (one value) given for every
         # name of the table, and the same table is used afterwards to build and edit a second, unrelated model
@@ -643,8 +681,8 @@ def gen_op(rng, spec: dict, removed: list[str], counter: list[int]) -> dict:  # 
         if objects == "shared":
             for it in items:
                 it["value"] = items[0]["value"]
-        return {"op": o, "items": items, "objects": objects}
-    return {"op": o, "items": items}
+        return {"op": o, "items": items, "objects": objects, **container}
+    return {"op": o, "items": items, **container}
 
 
 def triple_ops(spec: dict) -> list[dict]:
@@ -866,6 +904,9 @@ def run_case(case: dict) -> dict:
             sample = {"history": history}
     counters["mutator_ran_with_cache_populated"] = cpc[0]
     counters["table_of_objects_reused_for_a_second_model_that_was_then_edited"] = SIBLING_EDITS[0]
+    for form, cnt_ in CONTAINERS.items():
+        counters[f"plural edit given as {form}"] = cnt_
+    CONTAINERS.clear()
     SIBLING_EDITS[0] = 0
     counters["evaluating_edit_refused_on_unresolvable_content(fresh model alike)"] = FRESH_REFUSALS[0]
     FRESH_REFUSALS[0] = 0
